@@ -16,8 +16,13 @@ from operator import mul
 from pathlib import Path
 
 import numpy as np
-from numpy.lib.format import (
-    _check_version, _write_array_header, dtype_to_descr)
+try:
+    from numpy.lib.format import (
+        _check_version, _write_array_header, dtype_to_descr)
+except ImportError:  # pragma: no cover
+    # NumPy >= 2: the private helpers moved to numpy.lib._format_impl
+    from numpy.lib._format_impl import (
+        _check_version, _write_array_header, dtype_to_descr)
 import mtscomp
 from tqdm import tqdm
 
